@@ -174,3 +174,12 @@ Proof.
   pose proof (rec_fold_ok packed _ _ (Forall2_map_agree fs HF) _ _ rec_init) as (E & _).
   unfold nl_offsets, cl_offsets. rewrite E. reflexivity.
 Qed.
+
+(* the three consequences together, as stated in Properties.v *)
+Lemma layout_agrees_all t : wfb t = true ->
+  nl t = cl t /\ static_assert_holds t = true /\
+  (forall fs packed aligned, t = TRec fs packed aligned -> nl_offsets fs packed = cl_offsets fs packed).
+Proof.
+  intros H. split; [apply (layout_agree t H)|]. split; [apply static_assert_ok; exact H|].
+  intros fs packed aligned ->. eapply offsets_ok; exact H.
+Qed.
